@@ -68,7 +68,7 @@ func init() {
 	Register(&Prop{
 		ID: "C09",
 		Rule: "triples (H, S1, S2): H = a request or response head built line by line with every mix of CRLF / bare-LF line ends and blank-line terminators (and without terminator), fields from a small grammar incl. folding and odd bytes; " +
-			"S1, S2 = continuations (empty, body bytes, a pipelined message with CRLFCRLF, bare LFs, random); both H++S1 and H++S2 go through RequestHeader.Read / ResponseHeader.Read; live: the head alone on a server connection (no answer before input starvation = waited); " +
+			"S1, S2 = continuations (empty, body bytes, a pipelined message with CRLFCRLF, bare LFs, random); both H++S1 and H++S2 go through RequestHeader.Read / ResponseHeader.Read; live: the head alone on a server connection, in one read or with its last 1..4 bytes in a read of their own, starvation reported as EOF or as a timeout (no answer before input starvation = waited); " +
 			"non-trivial = H contains a blank line; distinct = distinct triple",
 		Parallel: true,
 		Build: func(kind string, a [][]byte) *Case {
@@ -128,7 +128,16 @@ func init() {
 						return Ok()
 					}}
 			case "live":
-				res := runConn(connCfg{}, [][]byte{a[0]})
+				// a[1] (optional): the head arrives in two reads, the second carrying only its last k bytes
+				chunks := [][]byte{a[0]}
+				k := 0
+				if len(a) > 1 {
+					fmt.Sscan(string(a[1]), &k)
+				}
+				if k > 0 && k < len(a[0]) {
+					chunks = [][]byte{a[0][:len(a[0])-k], a[0][len(a[0])-k:]}
+				}
+				res := runConn(connCfg{AtEOF: map[bool]string{true: "timeout", false: ""}[len(a) > 2]}, chunks)
 				firstStarve, firstOut := -1, -1
 				for i, e := range res.Trace.Events {
 					if e.Kind == "starve" && firstStarve < 0 {
@@ -139,11 +148,11 @@ func init() {
 					}
 				}
 				v0 := readReqHead(a[0])
-				impl := fmt.Sprintf("starve@%d out@%d class=%s", firstStarve, firstOut, v0.class)
-				return &Case{Impl: impl, Nontrivial: true, Tags: []string{"live", "live-" + v0.class},
+				impl := fmt.Sprintf("starve@%d out@%d class=%s lastRead=%d", firstStarve, firstOut, v0.class, k)
+				return &Case{Impl: impl, Nontrivial: true, Tags: []string{"live", "live-" + v0.class, fmt.Sprintf("live-lastread=%d", min(k, 5))},
 					Judge: func([]string) Verdict {
 						if v0.class != "needmore" && firstStarve >= 0 && (firstOut < 0 || firstStarve < firstOut) {
-							return Verdict{VSpec, "complete-head-waits", fmt.Sprintf("server connection given only %q (a head RequestHeader.Read decides as %s) asked for more input before answering (%s)", a[0], v0.class, impl)}
+							return Verdict{VSpec, "complete-head-waits", fmt.Sprintf("server connection given only %q in reads of %d and %d bytes (a head RequestHeader.Read decides as %s) asked for more input before answering (%s)", a[0], len(a[0])-k, k, v0.class, impl)}
 						}
 						return Ok()
 					}}
@@ -187,6 +196,18 @@ func init() {
 				emit(kind, b.Bytes(), B(s1), B(s2))
 				if kind == "req" && i%20 == 0 {
 					emit("live", b.Bytes())
+				}
+				if kind == "req" && i%20 == 10 {
+					// the head split so that the last read carries only its final 1..4 bytes (or a random tail)
+					k := 1 + r.Intn(4)
+					if r.Chance(20) {
+						k = 1 + r.Intn(max(1, b.Len()-1))
+					}
+					if r.Bool() {
+						emit("live", b.Bytes(), N(k))
+					} else {
+						emit("live", b.Bytes(), N(k), B("t")) // the connection stays open: starvation is a timeout, not EOF
+					}
 				}
 			}
 		},
